@@ -29,8 +29,9 @@ type wnNode struct {
 }
 
 type wnMarker struct {
-	m      string
-	inside bool   // inside a disallowed skip-content element
+	m       string
+	comment bool   // planted in a comment / processing instruction / CDATA section, not in text
+	inside  bool   // inside a disallowed skip-content element
 	path   string // categories from the root
 }
 
@@ -88,6 +89,13 @@ func wnTreeIn(r *rand.Rand, e *Env, names []string, depth, maxDepth, maxKids int
 		if r.Intn(3) == 0 {
 			*mk++
 			out = append(out, &wnNode{text: wnMarkerText(r, *mk)})
+			continue
+		}
+		if r.Intn(9) == 0 {
+			// markup that is not an element: a comment, a processing instruction or a CDATA section (both
+			// bogus comments to an HTML tokenizer) carrying a marker
+			*mk++
+			out = append(out, &wnNode{name: "#comment", text: gen.Pick(r, []string{"<!-- %s -->", "<!--%s-->", "<?pi %s?>", "<![CDATA[%s]]>", "<!-- %s --!>", "<!%s>"}), attrs: [][2]string{{"marker", fmt.Sprintf("zqcm%06d", *mk)}}})
 			continue
 		}
 		name := names[r.Intn(len(names))]
@@ -166,6 +174,20 @@ func (e *Env) wnRender(r *rand.Rand, forest []*wnNode, noise int) wnDoc {
 					cut.WriteString(n.text)
 				}
 				d.markers = append(d.markers, wnMarker{m: n.text, inside: inside, path: strings.Join(path, ">")})
+				continue
+			}
+			if n.name == "#comment" {
+				m := n.attrs[0][1]
+				txt := fmt.Sprintf(n.text, m)
+				b.WriteString(txt)
+				if !inside {
+					cut.WriteString(txt)
+				}
+				d.markers = append(d.markers, wnMarker{m: m, comment: true, inside: inside, path: strings.Join(path, ">")})
+				d.feat["comment"] = true
+				if inside {
+					d.feat["in-skip:comment"] = true
+				}
 				continue
 			}
 			cat := e.category(n.name)
@@ -266,6 +288,9 @@ func c08Judge(cs *core.Case, env *Env, d *wnDoc, out string, lc core.LocalCounts
 				w := map[string]interface{}{"policy": spec.Describe(env.Ops), "ops": env.Ops, "input": core.Show(d.src), "output": core.Show(out), "marker": m.m, "path": m.path}
 				cs.Violate("C08:leaked:"+wnFeatureSig(d), fmt.Sprintf("marker %s planted inside a disallowed skip-content element (path %s) appears in the output; input=%q output=%q", m.m, m.path, core.Clip(d.src, 400), core.Clip(out, 300)), w)
 			}
+		} else if m.comment {
+			// outside: kept or not is the comment option's business (C01)
+			lc["comment_markers_outside_seen"]++
 		} else {
 			lc["markers_outside_checked"]++
 			if !present {
